@@ -31,6 +31,89 @@ func metricSpec(what, prefix string, gen func(r *rand.Rand) MetricCase) *Spec[Me
 	}
 }
 
+// metricRootBlame decides, for a case on which implementation and model disagree, whether the
+// disagreement arises at the ROOT operator of the expression (the operator the property is about) or
+// is inherited from an operand: if a direct operand already disagrees with the model when evaluated
+// on its own, the root's property is not shown to fail on this input (the correspondence is broken
+// further down: reported as no-failing-input-found); if every operand agrees and the whole does not,
+// the root operator is wrong on these very inputs.
+func metricRootBlame(c *Ctx) func(t MetricCase, impl, model Sexp) bool {
+	return func(t MetricCase, impl, model Sexp) bool {
+		if impl.Head() == "nondeterministic" || impl.Head() == "panic" || impl.Head() == "timeout" {
+			return true
+		}
+		for _, ch := range []*MExpr{t.E.A, t.E.B} {
+			if ch == nil || ch.Kind == "lit" {
+				continue
+			}
+			tc := t
+			tc.E = *ch
+			mi := metricImpl(tc)
+			mm, err := c.Drv.Ask(tc.Req())
+			if err != nil {
+				return true
+			}
+			if !metricEqual(tc, mi, mm) {
+				return false
+			}
+		}
+		return true
+	}
+}
+
+// keepRoot makes shrinking keep the root operator of the expression (the operator the property is about):
+// the kind of the root becomes part of the failure signature, and the shrinker only accepts candidates
+// with the same signature
+func keepRoot(spec *Spec[MetricCase]) {
+	old := spec.Signature
+	spec.Signature = func(t MetricCase, impl, model Sexp) string {
+		s := ""
+		if old != nil {
+			s = old(t, impl, model)
+		}
+		if s != "" {
+			return s // recorded findings keep their signature
+		}
+		return "root=" + t.E.Kind
+	}
+}
+
+// c10IdentityFails: the series-identity property itself fails iff a label set occurs twice in the
+// implementation's result or the label sets differ from the model's; values and sample times
+// alone are not C10's business
+func c10IdentityFails(impl, model Sexp) bool {
+	if impl.Head() != "ok" {
+		return true
+	}
+	shape := func(r mResult) (map[string]string, bool) {
+		m := map[string]string{}
+		for _, s := range r.Series {
+			if _, dup := m[s.Labels]; dup {
+				return nil, true
+			}
+			m[s.Labels] = "" // which steps a series has points at is the window's business (C09)
+		}
+		return m, false
+	}
+	a, dupA := shape(metricImplParse(impl))
+	if dupA {
+		return true
+	}
+	b, _ := shape(parseModelResult(model))
+	if len(a) == 0 || len(b) == 0 {
+		return false // presence or absence of everything is the window's business, not identity
+	}
+	if len(a) != len(b) {
+		return true
+	}
+	for k, v := range a {
+		if b[k] != v {
+			return true
+		}
+	}
+	return false
+}
+
 // records whose label sets are prefixes/concatenations of one another and repeat
 func genC10Recs(r *rand.Rand) []LRec {
 	sets := [][][2]string{
@@ -111,6 +194,39 @@ func init() {
 			genParams(r, &t)
 			return t
 		})
+		// series identity may break at the root or in an operand (whose series the root then aggregates):
+		// the property fails on this input iff it fails for the expression or one of its sub-expressions
+		var identityFails func(t MetricCase, impl, model Sexp, depth int) bool
+		identityFails = func(t MetricCase, impl, model Sexp, depth int) bool {
+			if c10IdentityFails(impl, model) {
+				return true
+			}
+			if depth == 0 {
+				return false
+			}
+			for _, ch := range []*MExpr{t.E.A, t.E.B} {
+				if ch == nil || ch.Kind == "lit" {
+					continue
+				}
+				tc := t
+				tc.E = *ch
+				mm, err := c.Drv.Ask(tc.Req())
+				if err != nil {
+					return true
+				}
+				if identityFails(tc, metricImpl(tc), mm, depth-1) {
+					return true
+				}
+			}
+			return false
+		}
+		// ... or when every operand on its own agrees with the model and the whole does not (the operands'
+		// series are then mis-identified only inside the combination, visible through the values)
+		blame10 := metricRootBlame(c)
+		spec.PropertyFails = func(t MetricCase, impl, model Sexp) bool {
+			return identityFails(t, impl, model, 3) || ((t.E.A != nil || t.E.B != nil) && blame10(t, impl, model))
+		}
+		keepRoot(spec)
 		spec.Nontrivial = func(t MetricCase, impl Sexp) bool {
 			seen := map[string]bool{}
 			for _, rec := range t.Recs {
@@ -174,6 +290,8 @@ func init() {
 			genParams(r, &t)
 			return t
 		})
+		spec.PropertyFails = metricRootBlame(c)
+		keepRoot(spec)
 		RunSpec(c, spec, c.Scale(3000, 100000))
 		if c.ReplayIn != "" {
 			return
@@ -247,6 +365,8 @@ func init() {
 			genParams(r, &t)
 			return t
 		})
+		spec.PropertyFails = metricRootBlame(c)
+		keepRoot(spec)
 		RunSpec(c, spec, c.Scale(3000, 100000))
 	}
 
